@@ -4,7 +4,8 @@ import sys, os, importlib
 sys.path.insert(0, os.path.dirname(os.path.abspath(__file__)))
 import common
 common.impl()
-for mod in ("c11",):
+mods = sorted(f[:-3] for f in os.listdir(os.path.dirname(os.path.abspath(__file__))) if __import__("re").fullmatch(r"c\d+\.py", f))
+for mod in mods:
     m = importlib.import_module(mod)
     if hasattr(m, "setup"):
         m.setup()
